@@ -65,7 +65,12 @@ class Native:
         t0 = time.time()
         tdir = os.path.join(BUILD, 'replay-target' + ('-' + features.replace(',', '_') if features else ''))
         shutil.copyfile(os.path.join(REPO, 'Cargo.lock'), os.path.join(VERIF, 'replay', 'Cargo.lock'))
-        r = subprocess.run(['cargo', 'build', '--offline'] + (['--features', features] if features else []), cwd=os.path.join(VERIF, 'replay'), env=dict(ENV, CARGO_TARGET_DIR=tdir),
+        fl = []
+        if features:
+            fs_ = [f for f in features.split(',') if f != 'nostd']
+            if 'nostd' in features.split(','): fl.append('--no-default-features')
+            if fs_: fl += ['--features', ','.join(fs_)]
+        r = subprocess.run(['cargo', 'build', '--offline'] + fl, cwd=os.path.join(VERIF, 'replay'), env=dict(ENV, CARGO_TARGET_DIR=tdir),
                            stdout=subprocess.PIPE, stderr=subprocess.STDOUT, text=True)
         if r.returncode != 0:
             raise CheckInconclusive('replay binary does not build against the working tree:\n' + r.stdout[-1500:])
